@@ -2,3 +2,16 @@ chk("C13", "property-based round-trip: Hypothesis literals -> compileTeal -> ind
     "Generated-input search (tens of thousands of literals per run, boundary/escape-biased) with a round-trip oracle through an independently written implementation of the assembler's literal grammar; finds escaping/validation slips that example tests cannot enumerate. Not a proof: bounded by generated sizes.",
     "Trusts vf/teal/parser.py as a faithful model of the go-algorand assembler's tokenizer/literal grammar, Python's codecs/hashlib, Hypothesis.",
     "DESIGN.md section 2 C13")
+
+chk("C01", "differential PBT: Hypothesis-generated program recipes -> compileTeal -> reference AVM interpreter vs independent tree-walking evaluator of the documented source semantics",
+    "Generated-input search over program trees x versions 2..10 x modes x transaction contexts; the oracle is an independent evaluator of PyTeal's documented source semantics compared with execution of the emitted TEAL on a reference AVM interpreter (verdict, value, ordered logs/state writes/inner txns, numbered slots). Catches wrong-but-stable lowerings that golden-text tests cannot. Bounded by recipe size; not a proof.",
+    "Trusts vf/avm (opcode semantics written from the AVM spec; primitives shared with the evaluator), vf/recipe/eval.py (source semantics from the docs), Hypothesis. Costs/fees/ledger rules not modelled.",
+    "DESIGN.md section 2 C01")
+chk("C16", "differential PBT: generated WideRatio factor lists (boundary-solved) -> compile -> reference AVM interpreter vs Python big-integer arithmetic",
+    "Thousands of factor lists per run, including ones solved to straddle the 2^128 running-product and 2^64 quotient boundaries, executed on the reference interpreter and compared with exact Python integer arithmetic (value, or must-fail).",
+    "Trusts vf/avm semantics of mulw/addw/divmodw/stack ops; Python integers.",
+    "DESIGN.md section 2 C16")
+chk("C20", "PBT over degenerate/long/nested control-flow recipes x all compile configurations; oracle = outcome is TEAL or a PyTeal error type, and an independent legality model implies acceptance",
+    "Generated-input search biased to degenerate control-flow shapes (loop first, Break/Continue-only bodies, empty arms, conditional-only cycles, long chains) under every version/mode/option/API combination, each compile in a fresh thread at user-level stack depth; any non-PyTeal exception, or rejection of a program that an independent docs-derived legality model calls legal, is a violation.",
+    "Trusts vf/recipe/legal.py (conservative minimum versions from docs/langspec); default recursion limit.",
+    "DESIGN.md section 2 C20")
